@@ -44,6 +44,7 @@ E
 RUN=$(awk '$1=="RUN"{print $2}' /tmp/harvest_$P$S.plan)
 PKG=$(awk '$1=="PKG"{$1="";print}' /tmp/harvest_$P$S.plan)
 RACE=$(awk '$1=="RACE"{print $2}' /tmp/harvest_$P$S.plan)
+[ -n "$(echo $PKG | tr -d " ")" ] || PKG="."
 RF=""; [ "$RACE" = 1 ] && RF="-race"
 DEMOS=()
 while read -r _ f tgt; do
